@@ -142,7 +142,8 @@ func validate(bm *bondmachine.Bondmachine) (string, string) {
 		if cells > 1<<d.O {
 			return "rom-capacity", fmt.Sprintf("domain %d: %d ROM cells in 2^%d", di, cells, d.O)
 		}
-		if len(d.Slocs) == 0 {
+		if len(d.Slocs) == 0 && d.Modes[0] != "vn" {
+			// (a von Neumann processor runs from RAM: its ROM is legitimately empty)
 			return "rom-capacity", fmt.Sprintf("domain %d has no program", di)
 		}
 		for li, wv := range append(append([]string{}, d.Slocs...), d.Vars...) {
@@ -279,6 +280,29 @@ func main() {
 			body[len(body)-1] = "mov o0, r0"
 		}
 		cs = append(cs, srcCase{Name: fmt.Sprintf("romlines-%d", n), Opt: "nodyn", Class: "boundary-rom", Src: prog(8, body, 0, 1)})
+	}
+	// execution modes: code in ROM and in RAM of the same CP (hy), RAM only (vn); the two sections share opcodes
+	for _, mode := range []string{"hy", "vn", "ha"} {
+		for _, share := range []bool{true, false} {
+			rom := "\ti2r r0, i0\n\tinc r0\n\tr2o r0, o0\n\tj _start\n"
+			ram := "\tinc r1\n\tr2o r1, o0\n\tj _rstart\n"
+			if !share {
+				ram = "\tdec r1\n\tcpy r2, r1\n\tj _rstart\n"
+			}
+			src := "%section prog .romtext iomode:sync\n\tentry _start\n_start:\n" + rom + "%endsection\n" +
+				"%section rprog .ramtext iomode:sync\n\tentry _rstart\n_rstart:\n" + ram + "%endsection\n"
+			switch mode {
+			case "hy":
+				src += "%meta cpdef cpu romcode: prog, ramcode: rprog, execmode: hy\n"
+			case "vn":
+				src += "%meta cpdef cpu ramcode: rprog, execmode: vn\n"
+			default:
+				src += "%meta cpdef cpu romcode: prog\n"
+			}
+			src += "%meta ioatt tin cp: cpu, index:0, type:input\n%meta ioatt tin cp: bm, index:0, type:input\n" +
+				"%meta ioatt tout cp: cpu, index:0, type:output\n%meta ioatt tout cp: bm, index:0, type:output\n%meta bmdef global registersize:8\n"
+			cs = append(cs, srcCase{Name: fmt.Sprintf("execmode-%s-shared-opcodes-%v", mode, share), Opt: "nodyn", Class: "execmode", Src: src})
+		}
 	}
 	for _, k := range []int{1, 2, 3, 4, 5, 8, 9} {
 		var body []string
